@@ -258,6 +258,8 @@ def env_generator_attrs(ctx: Ctx):
     shape_counts(ctx)
     job_op_ranges(ctx)
     mtvrp_demand_classes(ctx)
+    mtvrp_preset_order(ctx)
+    clustered_samplers(ctx)
     # C18.f: MTVRP generator -- time windows / service times are times, built from distances through the speed
     from .. import units
     menv = EnvA(ctx.repo, T.ALL_ENVS["MTVRPEnv"], "MTVRPEnv")
@@ -345,6 +347,87 @@ def mtvrp_demand_classes(ctx: Ctx):
     ctx.ob("C18.k", "MTVRPGenerator:capacity_original-unscaled", okc, gsl.where,
            f"capacity_original = {vg.show(co, 3) if co is not None else None}: the plain constructor value (a copy taken before `vehicle_capacity /= vehicle_capacity`)",
            construct="MTVRPGenerator._generate:capacity-original")
+
+
+def mtvrp_preset_order(ctx: Ctx):
+    """C18.m MTVRP variant presets are dictionaries that `subsample_problems` reads BY POSITION
+    (`list(self.variant_probs.values())`, column k of keep_mask -> the k-th `_default_<feature>` call).  Every preset (and the
+    dictionary built from prob_open / prob_time_window / prob_limit / prob_backhaul) must list its keys in the order the
+    consumer assumes; a reordered entry silently generates another variant than its name says."""
+    path = "rl4co/envs/routing/mtvrp/generator.py"
+    mi = ctx.repo.module_by_path(path)
+    FEATURE = {"_default_open": "O", "_default_time_window": "TW", "_default_distance_limit": "L", "_default_backhaul": "B"}
+    order = {}
+    sub = None
+    for n in ast.walk(mi.tree):
+        if isinstance(n, ast.FunctionDef) and n.name == "subsample_problems":
+            sub = n
+    if sub is None:
+        raise AnalysisError("MTVRPGenerator.subsample_problems not found")
+    for c in ast.walk(sub):
+        if isinstance(c, ast.Call) and isinstance(c.func, ast.Attribute) and c.func.attr in FEATURE and len(c.args) == 2:
+            for x in ast.walk(c.args[1]):
+                if isinstance(x, ast.Subscript) and isinstance(x.slice, ast.Tuple) and len(x.slice.elts) == 2 and isinstance(x.slice.elts[1], ast.Constant):
+                    order[x.slice.elts[1].value] = FEATURE[c.func.attr]
+    want = [order.get(k) for k in range(4)]
+    if None in want or len(set(want)) != 4:
+        raise AnalysisError(f"MTVRPGenerator.subsample_problems: positional consumer not understood ({order})")
+    positional = any(isinstance(c, ast.Call) and getattr(c.func, "id", "") == "list" and c.args and isinstance(c.args[0], ast.Call)
+                     and isinstance(c.args[0].func, ast.Attribute) and c.args[0].func.attr == "values" for c in ast.walk(sub))
+    dicts = []
+    for n in mi.tree.body:
+        if isinstance(n, ast.Assign) and any(isinstance(t, ast.Name) and t.id == "VARIANT_GENERATION_PRESETS" for t in n.targets) and isinstance(n.value, ast.Dict):
+            for k, v in zip(n.value.keys, n.value.values):
+                if isinstance(v, ast.Dict) and isinstance(k, ast.Constant):
+                    dicts.append((f"preset {k.value!r}", v))
+    for n in ast.walk(mi.tree):
+        if isinstance(n, ast.Assign) and any(isinstance(t, ast.Name) and t.id == "variant_probs" for t in n.targets) and isinstance(n.value, ast.Dict):
+            dicts.append(("prob_* arguments", n.value))
+    if len(dicts) < 10:
+        raise AnalysisError(f"only {len(dicts)} variant-probability dictionaries found (floor 10)")
+    bad = []
+    for name, dnode in dicts:
+        keys = [k.value if isinstance(k, ast.Constant) else None for k in dnode.keys]
+        if keys[:4] != want:
+            bad.append(f"{name}: keys {keys} (read as {want})")
+    ok = not bad or not positional
+    ctx.ob("C18.m", "MTVRPGenerator:variant-presets:key-order", ok, f"{path}:{sub.lineno}",
+           f"{len(dicts)} probability dictionaries list their keys in the order {want} in which subsample_problems reads them by position" if ok else "; ".join(bad[:3]),
+           construct="MTVRPGenerator:variant-presets:key-order")
+
+
+def clustered_samplers(ctx: Ctx):
+    """C18.m the clustered / mixed location samplers return coordinates confined to the unit square: the value they RETURN has
+    passed through clamp(0, 1) (in place, or by using the result); a `coords.clamp(0, 1)` whose result is discarded confines
+    nothing."""
+    path = "rl4co/envs/common/distribution_utils.py"
+    for cname in ("Cluster", "Mixed"):
+        cls = ctx.repo.get_class(path, cname)
+        fi = cls.methods.get("sample")
+        if fi is None:
+            raise AnalysisError(f"{cname}.sample not found")
+        ctx.fn(fi)
+        it = vg.Interp(ctx.repo, cls)
+        fr = it.run_function(fi)
+        r = fr.ret
+        clamps = []
+        if isinstance(r, vg.S):
+            for n in vg.walk(r):
+                if n.op == "meth" and n.args[1] in ("clamp", "clamp_", "clip", "clip_"):
+                    clamps.append(n)
+                elif nf._fn(n) in ("torch.clamp", "torch.clip"):
+                    clamps.append(n)
+        outer = nf.strip(r) if isinstance(r, vg.S) else None
+        is_outer = outer is not None and any(outer is c for c in clamps)
+        lohi = False
+        if is_outer:
+            from ..bounds import Prover
+            x, lo, hi = Prover._clamp(outer)
+            lohi = lo is not None and hi is not None and vg.is_const(lo, 0) and vg.is_const(hi, 1)
+        ctx.ob("C18.m", f"{cname}.sample:confined-to-unit-square", bool(is_outer and lohi), fi.loc,
+               "the returned coordinates are the result of clamp(0, 1)" if is_outer and lohi else
+               f"the returned value {vg.show(r, 3)[:100] if isinstance(r, vg.S) else r} is not the result of a clamp to [0, 1] (a clamp whose result is discarded does not confine anything)",
+               construct=f"{cname}.sample:clamp")
 
 
 def shape_counts(ctx: Ctx):
